@@ -94,17 +94,17 @@ def path_to(parents_text, pair):
 
 def parse_mismatch(line):
     """mismatch <i> <q> <s> <cfg> | <options> | <machine tree> | parents"""
-    parts = line.split(" | ")
+    parts = line.split(" ### ")
     head = parts[0].split()
     info = {"raw": line[:600]}
     if head[1] == "start":
-        info.update(kind="start", reading=parts[1] if len(parts) > 1 else "", machine=parts[2].rstrip(" |") if len(parts) > 2 else "", input=[])
+        info.update(kind="start", reading=parts[1] if len(parts) > 1 else "", machine=parts[2].rstrip(" #") if len(parts) > 2 else "", input=[])
         return info
     i, q, s = int(head[1]), int(head[2]), int(head[3])
     parents = parts[3] if len(parts) > 3 else ""
-    parents = parents.lstrip("| ").strip()
+    parents = parents.lstrip("# ").strip()
     pre = path_to(parents, "%d/%d" % (i, q))
-    info.update(kind="step", config=i, state=q, symbol=s, configuration=" ".join(head[4:]), reading=parts[1], machine=parts[2].rstrip(" |"),
+    info.update(kind="step", config=i, state=q, symbol=s, configuration=" ".join(head[4:]), reading=parts[1], machine=parts[2].rstrip(" #"),
                 input=pre + ([s] if s < 256 else []))
     return info
 
